@@ -358,3 +358,7 @@ pub fn expected_with_eof_ends(ops: &[WOp]) -> Vec<TagV> {
     t
 }
 
+
+pub fn describe(ops: &[WOp]) -> String {
+    ops.iter().map(|o| o.short()).collect::<Vec<_>>().join(" ")
+}
